@@ -155,8 +155,8 @@ theorem repo_panics_nil_root :
 
 /-- `lc-struct-stop-panics`: Length on a path that stops on the nested struct `I` indexes `path[1]`. -/
 theorem repo_panics_lc_struct_stop :
-    lcM GenCfg.repo false exNode .ptr exVal [seg "I"] = .panic ∧
-    lcM GenCfg.repo true exNode .ptr exVal [seg "I"] = .panic := by
+    lcM GenCfg.original false exNode .ptr exVal [seg "I"] = .panic ∧
+    lcM GenCfg.original true exNode .ptr exVal [seg "I"] = .panic := by
   decide
 
 /-- `copy-nil-elem-panics`: the nil `*Inner` element of `E` is dereferenced. -/
